@@ -37,7 +37,8 @@ SRC_DEPS = {
     'K-SEG': SRC_RAW + ['src/lru/segmented.rs'], 'K-2Q': SRC_RAW + ['src/lru/two_queue.rs'], 'K-ARC': SRC_RAW + ['src/lru/adaptive.rs'],
     'K-WTLFU': SRC_RAW + ['src/lru/segmented.rs', 'src/lfu/wtinylfu.rs', 'src/lfu/wtinylfu'] + SRC_TLFU,
     'K-SKETCH': SRC_TLFU, 'K-TLFU-CTOR': SRC_TLFU, 'K-SLFU': ['src/lfu/sampled.rs'],
-    'K-LEAK': SRC_RAW + ['src/lru/segmented.rs', 'src/lru/two_queue.rs', 'src/lru/adaptive.rs'],
+    'K-LEAK': SRC_RAW + ['src/lru/segmented.rs', 'src/lru/two_queue.rs'],
+    'K-LEAK-ARC': SRC_RAW + ['src/lru/adaptive.rs'],
 }
 
 UNITS = {
@@ -131,7 +132,7 @@ UNITS = {
                         assumptions=['contract assumed for the logarithm: ln(x) in [-745, 0) and not NaN for 0 < x < 1; ceil/floor/mul/div/casts are CBMC\'s exact IEEE models',
                                      'std CountMinSketch::new (SystemTime + StdRng seeding) is not executed; only its sizing arithmetic, shared with the no_std constructor, is']),
     'K-LEAK': dict(engine='kani', jobs=6, files=['harness_raw_life.rs', 'harness_segmented.rs', 'harness_two_queue.rs', 'harness_adaptive.rs'],
-                   support_files=['gen.rs', 'harness_raw.rs'], match=r'_leakcheck$', configs=['stdleak'],
+                   support_files=['gen.rs', 'harness_raw.rs'], match=r'_leakcheck$', exclude=r'^arc_', configs=['stdleak'],
                    module={'harness_raw_life.rs': 'lru::raw::verif_hooks::harness_life', 'harness_segmented.rs': 'lru::segmented::verif_hooks::harness',
                            'harness_two_queue.rs': 'lru::two_queue::verif_hooks::harness', 'harness_adaptive.rs': 'lru::adaptive::verif_hooks::harness'},
                    n=dict(quick=2, thorough=2), bound='each list <= {N} entries; 32 tracked object ids',
@@ -139,6 +140,12 @@ UNITS = {
                    functions=[dict(function=f, file='src/lru/*.rs', line=0, props=['C04', 'C03'])
                               for f in ['RawLRU::{put, remove, remove_lru, purge, resize, drop}', 'SegmentedCache::{put, put_protected, drop}', 'TwoQueueCache::{put, drop}', 'AdaptiveCache::{put, replace, drop}']],
                    assumptions=SHIM_ASSUMPTIONS + ['CBMC --memory-leak-check: every heap object allocated in the harness must be freed by the end (nodes, sentinels, index shim)']),
+    # the ARC drop-everything harness needs 2 h 20 min at N = 2 (four lists freed through symbolic pointers): it runs at N = 1
+    'K-LEAK-ARC': dict(engine='kani', jobs=6, files=['harness_adaptive.rs'], support_files=['gen.rs'], match=r'^arc_put_leakcheck$', configs=['stdleak'],
+                       module={'harness_adaptive.rs': 'lru::adaptive::verif_hooks::harness'},
+                       n=dict(quick=1, thorough=1), bound='each of the four lists <= 1 entry; 12 tracked object ids', timeout=dict(quick=3600, thorough=7200),
+                       functions=[dict(function='AdaptiveCache::{put, replace, drop}', file='src/lru/adaptive.rs', line=0, props=['C04', 'C03'])],
+                       assumptions=SHIM_ASSUMPTIONS + ['CBMC --memory-leak-check: every heap object allocated in the harness must be freed by the end']),
     'K-ITER': dict(engine='kani', files=['harness_raw_iter.rs'], support_files=['harness_raw.rs', 'gen.rs'],
                    module={'harness_raw_iter.rs': 'lru::raw::verif_hooks::harness_iter'},
                    n=dict(quick=2, thorough=3), bound='list length <= {N}+1, schedule of next/next_back of length {N}+3 (= len()+2 at full length)',
@@ -170,20 +177,20 @@ KANI_NOTE = ('trusted: rustc, Kani 0.68/CBMC 6.11/minisat; the HashMap contract 
 T_KANI = 'contract harnesses (requires = invariant on an arbitrary symbolic state, call, ensures) checked by Kani/CBMC on the real crate'
 T_VERUS = 'contracts spliced onto functions extracted byte-for-byte from /repo and discharged by Verus/Z3'
 
-def _P(units, level, text, note, technique, quick=None, **kw):
-    d = dict(units=dict(quick=quick or units, thorough=units), level=level, level_text=text, level_note=note, technique=technique)
+def _P(units, level, text, note, technique, quick=None, thorough_extra=(), **kw):
+    d = dict(units=dict(quick=quick or units, thorough=units + list(thorough_extra)), level=level, level_text=text, level_note=note, technique=technique)
     d.update(kw)
     return d
 
-COST_ORDER = ['V-ROW', 'V-BLOOM', 'V-TLFU', 'V-POW', 'K-PR', 'K-SLFU', 'K-TLFU-CTOR', 'K-SKETCH', 'K-RAW', 'K-ITER', 'K-CB', 'K-LIFE', 'K-SEG', 'K-LEAK', 'K-2Q', 'K-WTLFU', 'K-ARC']
+COST_ORDER = ['V-ROW', 'V-BLOOM', 'V-TLFU', 'V-POW', 'K-PR', 'K-SLFU', 'K-TLFU-CTOR', 'K-SKETCH', 'K-RAW', 'K-ITER', 'K-CB', 'K-LIFE', 'K-SEG', 'K-LEAK', 'K-2Q', 'K-WTLFU', 'K-ARC', 'K-LEAK-ARC']
 
 ALL_CACHES = ['K-RAW', 'K-SEG', 'K-2Q', 'K-ARC', 'K-WTLFU']
 
 PROPERTIES = {
     'C01': _P(ALL_CACHES + ['K-LIFE'], 'model_checking', KANI_LEVEL_TEXT + '. C01 is the conjunct "inv" of every operation contract of all five caches: resident count <= cap(), every partition within its bound, partitions pairwise key-disjoint, len()/is_empty() consistent with the view.', KANI_NOTE, T_KANI),
     'C02': _P(ALL_CACHES + ['K-LIFE', 'K-ITER'], 'model_checking', KANI_LEVEL_TEXT + '. C02: lookups/put/remove postconditions over the whole key->value view, with symbolic values unrelated to keys; borrowed-key lookups with K=Box<u8>,Q=u8 and K=[u8;2],Q=[u8].', KANI_NOTE + '; String/&str keys not instantiated', T_KANI),
-    'C03': _P(ALL_CACHES + ['K-LIFE', 'K-ITER', 'K-CB', 'K-LEAK'], 'model_checking', KANI_LEVEL_TEXT + '. C03: CBMC pointer-validity/bounds/double-free/dealloc checks on every path of every harness, plus the well-formedness audit (second sentence of C03, literally) after every operation, incl. clone, purge, resize, drop and node hand-over between lists.', KANI_NOTE + '; Stacked/Tree-Borrows aliasing rules and lifetimes of returned references are out of reach', T_KANI),
-    'C04': _P(['K-LEAK', 'K-LIFE', 'K-2Q', 'K-ARC', 'K-SEG', 'K-WTLFU'], 'model_checking', KANI_LEVEL_TEXT + '. C04: drop-counting ghost state (every key/value object has an id and a drop counter): after each RawLRU operation and after dropping the cache every object was dropped exactly once or is retained/handed back; composite caches: node hand-over contracts plus CBMC dealloc checks on drop harnesses.', KANI_NOTE + '; heap-leak detection for composite caches relies on the RawLRU-level accounting plus view equations (no allocator counting)', T_KANI),
+    'C03': _P(ALL_CACHES + ['K-LIFE', 'K-ITER', 'K-CB', 'K-LEAK'], 'model_checking', KANI_LEVEL_TEXT + '. C03: CBMC pointer-validity/bounds/double-free/dealloc checks on every path of every harness, plus the well-formedness audit (second sentence of C03, literally) after every operation, incl. clone, purge, resize, drop and node hand-over between lists.', KANI_NOTE + '; Stacked/Tree-Borrows aliasing rules and lifetimes of returned references are out of reach', T_KANI, thorough_extra=['K-LEAK-ARC']),
+    'C04': _P(['K-LEAK', 'K-LIFE', 'K-2Q', 'K-ARC', 'K-SEG', 'K-WTLFU'], 'model_checking', KANI_LEVEL_TEXT + '. C04: RawLRU: drop-counting ghost state (every key/value object has an id and a drop counter) in harnesses that end by dropping the cache, run with the CBMC memory-leak check; composite caches: put harnesses with heap-owning values (V = Box<u8>: a value dropped twice, or while still held, is a double free / use after free for CBMC) and node hand-over contracts; thorough tier adds drop-everything harnesses with tracked payloads and the memory-leak check for SegmentedCache, 2Q and ARC.', KANI_NOTE + '; a node that a composite cache forgets to free is only seen by the thorough tier (leak-check harnesses)', T_KANI, thorough_extra=['K-LEAK-ARC']),
     'C05': _P(ALL_CACHES + ['K-LIFE', 'K-SLFU', 'K-SKETCH', 'K-TLFU-CTOR', 'V-ROW', 'V-BLOOM', 'V-TLFU', 'V-POW'], 'model_checking', 'mixed: constructor/builder contracts over the FULL argument domain (all usize sizes, all f64 ratios incl. NaN) are complete Kani proofs; LFU arithmetic (overflow, shifts, indices) is proved unbounded by Verus on the extracted functions; panic-freedom of list operations is ' + KANI_LEVEL_TEXT, KANI_NOTE + '; CBMC float model for floor/mul; ln(x) in [-745,0) for 0<x<1 assumed (stub); fewer than 2^64 doorkeeper insertions; sizes <= 2^32', T_KANI + ' + ' + T_VERUS),
     'C06': _P(['K-RAW', 'K-LIFE'], 'model_checking', KANI_LEVEL_TEXT + '. C06: the view equations of every RawLRU method (exact order of the whole list after each call).', KANI_NOTE, T_KANI),
     'C07': _P(['K-SEG'], 'model_checking', KANI_LEVEL_TEXT + '. C07: SLRU contract of put/get/get_mut/put_protected/remove_lru_from_*/peek_*_from_* by key location.', KANI_NOTE, T_KANI),
